@@ -1087,7 +1087,12 @@ class DmrDevice(ConnectionManagerMixin, UpnpProfileDevice):
             self._current_track_meta_data = None
             return
 
-        items = _cached_from_xml_string(xml)
+        try:
+            items = _cached_from_xml_string(xml)
+        except Exception as err:  # pylint: disable=broad-except
+            # The device supplied this; it must not break event handling.
+            _LOGGER.debug("Unparsable CurrentTrackMetaData: %r", err)
+            items = []
         if not items:
             self._current_track_meta_data = None
             return
@@ -1270,7 +1275,12 @@ class DmrDevice(ConnectionManagerMixin, UpnpProfileDevice):
             self._av_transport_uri_meta_data = None
             return
 
-        items = _cached_from_xml_string(xml)
+        try:
+            items = _cached_from_xml_string(xml)
+        except Exception as err:  # pylint: disable=broad-except
+            # The device supplied this; it must not break event handling.
+            _LOGGER.debug("Unparsable AVTransportURIMetaData: %r", err)
+            items = []
         if not items:
             self._av_transport_uri_meta_data = None
             return
